@@ -108,12 +108,12 @@ theorem registerAllFrom_other (ls : List Nat) : ∀ (s : St) (l : Nat), l ∉ ls
     rw [ih _ l (fun h => hl (List.mem_cons_of_mem _ h))]
     have : l ≠ a := fun h => hl (h ▸ List.mem_cons_self)
     simp only [register]; split
-    · rfl
+    · simp [upd, this]
     · simp [upd, this]
 
 theorem registerAllFrom_registers (ls : List Nat) (hnd : ls.Nodup) : ∀ (s : St) (l : Nat), l ∈ ls →
     ((registerAllFrom s ls).lst l).registered = true ∧ ((registerAllFrom s ls).lst l).backlog = (s.lst l).backlog ∧
-    ((registerAllFrom s ls).lst l).linked = (s.lst l).linked := by
+    ((registerAllFrom s ls).lst l).linked = (s.lst l).linked ∧ ((registerAllFrom s ls).lst l).deadline = none := by
   induction ls with
   | nil => intro s l h; cases h
   | cons a as ih =>
@@ -123,23 +123,25 @@ theorem registerAllFrom_registers (ls : List Nat) (hnd : ls.Nodup) : ∀ (s : St
     rcases List.mem_cons.mp hl with rfl | hl'
     · rw [registerAllFrom_other as _ l hnd'.1]
       simp only [register]; split
-      · rename_i h; exact ⟨h, rfl, rfl⟩
+      · rename_i h; simp [upd] at h ⊢; exact h
       · simp [upd]
-    · have := ih hnd'.2 (register s a) l hl'
+    · have := ih hnd'.2 (register { s with lst := upd s.lst a { s.lst a with deadline := none } } a) l hl'
       have hne : l ≠ a := fun h => hnd'.1 (h ▸ hl')
-      have hsame : (register s a).lst l = s.lst l := by
+      have hsame : (register { s with lst := upd s.lst a { s.lst a with deadline := none } } a).lst l = s.lst l := by
         simp only [register]; split
-        · rfl
+        · simp [upd, hne]
         · simp [upd, hne]
       rw [hsame] at this; exact this
 
 /-- **resume re-arms every listener**: after `Resume` is processed every listener (TCP or Unix
 domain) is back in the poll set with its backlog — including connections that arrived during the
-pause — and its socket path untouched, and the accept loop is then run on every listener -/
+pause — its socket path untouched and **no back-off deadline left** (so that a later `Pause`
+deregisters it again: the defect fixed in /repo), and the accept loop is then run on every listener -/
 theorem resume_rearms (s : St) (l : Nat) (hl : l < s.nLst) :
     ((registerAllFrom { s with paused := false } (List.range s.nLst)).lst l).registered = true ∧
     ((registerAllFrom { s with paused := false } (List.range s.nLst)).lst l).backlog = (s.lst l).backlog ∧
-    ((registerAllFrom { s with paused := false } (List.range s.nLst)).lst l).linked = (s.lst l).linked :=
+    ((registerAllFrom { s with paused := false } (List.range s.nLst)).lst l).linked = (s.lst l).linked ∧
+    ((registerAllFrom { s with paused := false } (List.range s.nLst)).lst l).deadline = none :=
   registerAllFrom_registers _ List.nodup_range _ l (List.mem_range.mpr hl)
 
 theorem resume_runs_accept_loop (cfg : Cfg) (fuel : Nat) (s : St) (q : List Interest) (hnf : s.fault = none)
